@@ -22,6 +22,8 @@ class Lib:
         op = name[len('operator'):]
         a0 = args[0]
         t0 = P.ty(a0); c0 = self.tr.category(t0)
+        if c0 in ('ptr', 'carray', 'scalar') and op == '+' and len(args) == 2 and self.tr.category(P.ty(args[1])) in ('str', 'sv'):
+            return 'str_concat(%s, %s)' % (self.as_sv(P, a0), self.as_sv(P, args[1]))
         if c0 in ('iter', 'ptr') or (c0 == 'sp' and op in ('==', '!=')):
             if op in ('<', '>', '<=', '>=', '==', '!='):
                 return '(%s %s %s)' % (P.ex(a0), op, P.ex(args[1]))
@@ -45,6 +47,20 @@ class Lib:
             return '(%s %s %s)' % (P.ex(a0), op, P.ex(args[1]))
         if c0 in ('scalar', 'enum') and len(args) == 1 and op in ('~', '-', '!'):
             return '(%s%s)' % (op, P.paren(P.ex(a0)))
+        if c0 == 'riter':
+            # std::reverse_iterator<T*>: {T *base}; *it == *(base - 1)
+            if op in ('==', '!='): return '(%s.base %s %s.base)' % (P.paren(P.ex(a0)), op, P.paren(P.ex(args[1])))
+            if op == '++':
+                if len(args) == 2: return 'RITER_POSTINC(%s)' % P.addr(a0)
+                return '(*RITER_PREINC(%s))' % P.addr(a0)
+            if op == '--':
+                if len(args) == 2: raise Unsupported('%s: postfix -- on reverse iterator' % P.cname)
+                return '(*RITER_PREDEC(%s))' % P.addr(a0)
+            if op == '*' and len(args) == 1: return '(*(%s.base - 1))' % P.paren(P.ex(a0))
+            if op == '->': return '(%s.base - 1)' % P.paren(P.ex(a0))
+            if op == '-' and len(args) == 2 and self.tr.category(P.ty(args[1])) == 'riter':
+                return '(%s.base - %s.base)' % (P.paren(P.ex(args[1])), P.paren(P.ex(a0)))
+            if op == '=': return '(%s = %s)' % (P.ex(a0), P.ex(args[1]))
         if c0 == 'sp':
             if op == '->': return P.ex(a0)
             if op == '*': return '(*%s)' % P.paren(P.ex(a0))
@@ -154,7 +170,7 @@ class Lib:
             if name == 'pop_back': return 'vec_%s_pop_back(%s)' % (m, objaddr())
             if name == 'clear': return 'vec_%s_clear(%s)' % (m, objaddr())
             if name == 'reserve':
-                return '((void)0)'
+                return 'vec_%s_reserve(%s, %s)' % (m, objaddr(), P.ex(A[0]))
             if name == 'resize' and len(A) == 1:
                 return 'vec_%s_resize(%s, %s)' % (m, objaddr(), P.ex(A[0]))
             if name == 'operator=' and len(A) == 1:
@@ -340,6 +356,8 @@ class Lib:
             return '%s(%s)' % (self.THROWING[name], self.as_sv(P, args[0]))
         if name == 'exists' and len(args) == 1 and self.tr.category(P.ty(args[0])) == 'opaque':
             return 'g_fs_exists'
+        if name == 'count' and len(args) == 3 and self.tr.category(P.ty(args[0])) in ('iter', 'ptr'):
+            return 'shim_count_char(%s, %s, %s)' % (P.ex(args[0]), P.ex(args[1]), P.ex(args[2]))
         if name in ('move', 'forward'):
             return P.ex(args[0])
         if name in ('make_shared', 'make_unique'):
